@@ -152,6 +152,11 @@ jobs:
         with:
           entrypoint: /bin/sh
           args: -c x
+      - uses: actions/github-script@v7
+        with:
+          github-token: tok
+          script: return 1
+          retries: 1
   prep:
     runs-on: ubuntu-latest
     steps:
